@@ -25,11 +25,25 @@ def run_seed(seed):
     d = tempfile.mkdtemp(prefix='snoopy-seed-')
     sc = os.path.join(d, 'repo')
     res = {'seed': seed, 'property': prop, 'applies': True, 'caught_by': {}, 'own_property_check': None}
+    if meta.get('neutralised_by'):
+        res['applies'] = False
+        res['note'] = 'no longer breaks the property on the repaired tree (fix %s): %s' % (
+            meta['neutralised_by']['fix'], meta['neutralised_by']['why'])
+        return res
     try:
         subprocess.call(['rsync', '-a', '--exclude', '.git', '--exclude', '*.o', '--exclude', '*.lo', '--exclude', '.libs',
                          '--exclude', '/tests', '--exclude', '*.log', '--exclude', '*.trs', '/repo/', sc + '/'],
                         stderr=subprocess.DEVNULL)
         p = subprocess.run(['patch', '-s', '-p1', '-d', sc, '-i', patch], stdout=subprocess.PIPE, stderr=subprocess.STDOUT, text=True)
+        ported = os.path.join(sdir, 'patch.ported.diff')
+        if p.returncode != 0 and os.path.exists(ported):
+            # the same change re-expressed against the repaired tree (the original no longer applies)
+            shutil.rmtree(sc)
+            subprocess.call(['rsync', '-a', '--exclude', '.git', '--exclude', '*.o', '--exclude', '*.lo', '--exclude', '.libs',
+                             '--exclude', '/tests', '--exclude', '*.log', '--exclude', '*.trs', '/repo/', sc + '/'],
+                            stderr=subprocess.DEVNULL)
+            p = subprocess.run(['patch', '-s', '-p1', '-d', sc, '-i', ported], stdout=subprocess.PIPE, stderr=subprocess.STDOUT, text=True)
+            res['ported'] = True
         if p.returncode != 0:
             res['applies'] = False
             res['note'] = 'patch no longer applies to the repaired tree: ' + p.stdout.strip()[:200]
